@@ -65,7 +65,8 @@ class IndependentModelList(AbstractModelList):
             kwargs = [kwargs] * len(inputs)
 
         fantasy_models = [
-            model.get_fantasy_model(*inputs_, *targets_, **kwargs_)
+            # a member takes its inputs as one argument: a tensor, or a list of tensors for a member with several inputs
+            model.get_fantasy_model(inputs_[0] if len(inputs_) == 1 else list(inputs_), *targets_, **kwargs_)
             for model, inputs_, targets_, kwargs_ in length_safe_zip(
                 self.models,
                 _get_tensor_args(*inputs),
